@@ -15,12 +15,12 @@ from rv.oracles import hp_linalg as hp
 ID = 'C08'
 RULE = ('seeded random (F, Q, dt): n 1..24 (mpmath subset n<=12 in quick), F stable / unstable / '
         'nilpotent / zero / random with |F|dt up to ~20, PSD Q of rank 0..n and scale 1e-6..1e3, '
-        'dt in [0,10] incl. 0 and tiny; partitions of dt into 1..8 sub-steps; non-trivial = not '
+        'dt in [0,10] incl. 0 and tiny; class integer: whole-number F / Q / dt typed as integers in any mix; after each case the same F, Q arrays updated in place between three further calls; partitions of dt into 1..8 sub-steps; non-trivial = not '
         '(n<=2 integrator or the single random 15x15 at one dt); distinct = generator parameters')
 ASSUMPTIONS = ['mpmath Taylor expm at 50 digits is exact relative to float64',
                'rounding bound kappa = exp(|F|_2 dt) * (1+|F|dt)  (conditioning of the block exponential)']
-REQUIRED_OBS = ['post_checked', 'mp_compared', 'composition_checked', 'zero_step_checked', 'ambient_calls_checked']
-REQUIRED_CLASSES = {'all': ['stable', 'unstable', 'nilpotent', 'triangular', 'diagonal', 'zero', 'random', 'singularQ', 'dt0', 'ambient']}
+REQUIRED_OBS = ['float_route_compared', 'in_place_updates_between_calls', 'integer_typed_inputs', 'post_checked', 'mp_compared', 'composition_checked', 'zero_step_checked', 'ambient_calls_checked']
+REQUIRED_CLASSES = {'all': ['stable', 'unstable', 'nilpotent', 'triangular', 'diagonal', 'zero', 'random', 'singularQ', 'dt0', 'integer', 'ambient']}
 EPS = np.finfo(float).eps
 C_PHI = 5e4   # scipy 1.18 expm is only ~1e-12 relative on small blocks (measured: 620 eps)
 C_Q = 5e4
@@ -31,7 +31,7 @@ LAST = {}
 
 def _pre(args, kwargs):
     F, Q, dt = args
-    return np.array(F, copy=True), np.array(Q, copy=True), dt
+    return np.array(F, dtype=float), np.array(Q, dtype=float), float(dt)
 
 
 def bounds(F, Q, dt):
@@ -79,6 +79,21 @@ def check_post(F, Q, dt, result, obs, use_mp):
         if eQ > bq:
             out.append(vio('noise_integral', f'|Qd - int| = {eQ:.3e} > {bq:.3e}'))
         LAST['ref'] = (Pr, Qr)
+    elif n:
+        # float route: the same Van Loan construction evaluated here (scipy expm) - not an accuracy oracle, but it does not share any
+        # state with the function under test, so an answer that belongs to other inputs (memo, stale reference) shows at once
+        from scipy.linalg import expm
+        Hm = np.zeros((2 * n, 2 * n))
+        Hm[:n, :n], Hm[:n, n:], Hm[n:, n:] = F, Q, -F.T
+        E = expm(Hm * dt)
+        Pr, Qr = E[:n, :n], E[:n, n:] @ E[:n, :n].T
+        obs['float_route_compared'] = obs.get('float_route_compared', 0) + 1
+        eP = np.abs(Phi - Pr).max()
+        eQ = np.abs(Qd - Qr).max()
+        if eP > bphi:
+            out.append(vio('transition', f'|Phi - expm(F dt)| = {eP:.3e} > {bphi:.3e} (float route)'))
+        if eQ > bq and eQ > 0:
+            out.append(vio('noise_integral', f'|Qd - int| = {eQ:.3e} > {bq:.3e} (float route)'))
     return out
 
 
@@ -112,6 +127,8 @@ def gen(case):
     cls = case['cls']
     nmax = case.get('nmax', 24)
     n = int(rng.integers(1, nmax + 1))
+    if cls == 'integer':
+        return gen_integer(rng)
     kind = cls if cls in ('stable', 'unstable', 'nilpotent', 'triangular', 'diagonal', 'zero', 'random') else \
         str(rng.choice(['stable', 'unstable', 'nilpotent', 'triangular', 'diagonal', 'random']))
     if kind == 'zero':
@@ -150,19 +167,49 @@ def gen(case):
     return F, Q, dt, parts
 
 
+def gen_integer(rng):
+    """Whole-number systems the way they are typed in by hand: integer-typed F (integrator chains, small random), integer or float
+    Q, integer or float dt - any mix.  Same mathematics, other dtypes."""
+    n = int(rng.integers(1, 7))
+    if rng.random() < 0.6:
+        F = np.triu(rng.integers(-1, 2, (n, n)), 1)
+    else:
+        F = rng.integers(-1, 2, (n, n)) - np.eye(n, dtype=int)
+    G = rng.integers(-2, 3, (n, int(rng.integers(0, n + 1))))
+    Q = G @ G.T
+    dt = int(rng.integers(1, 4))
+    mix = int(rng.integers(0, 4))
+    if mix == 0:        # integer F and dt, fractional Q
+        Q = Q * float(rng.choice([0.2, 0.5, 0.3, 1e-3]))
+    elif mix == 1:      # everything integer
+        pass
+    elif mix == 2:      # float F, integer Q and dt
+        F = F * 0.5
+    else:               # integer F and Q, fractional dt
+        dt = float(rng.choice([0.5, 1.5, 0.25]))
+        Q = Q * 0.1
+    if dt >= 2 and rng.random() < 0.7:
+        parts = [1] * int(dt) if isinstance(dt, int) else [dt / 2, dt / 2]
+        if rng.random() < 0.5 and isinstance(dt, int):
+            parts = [float(x) for x in parts]
+    else:
+        parts = [dt / 2, dt / 4, dt / 4]
+    return F, Q, dt, parts
+
+
 def cases(seed, tier):
-    classes = ['stable', 'unstable', 'nilpotent', 'triangular', 'diagonal', 'zero', 'random', 'singularQ', 'dt0']
+    classes = ['stable', 'unstable', 'nilpotent', 'triangular', 'diagonal', 'zero', 'random', 'singularQ', 'dt0', 'integer']
     out = []
     if tier == 'quick':
         for i in range(224):
-            out.append(dict(seed=int(seed) * 1000003 + i, cls=classes[i % 9], mp=True, nmax=10, cost=3))
+            out.append(dict(seed=int(seed) * 1000003 + i, cls=classes[i % 10], mp=True, nmax=10, cost=3))
         for i in range(224, 1200):
-            out.append(dict(seed=int(seed) * 1000003 + i, cls=classes[i % 9], mp=False, nmax=24, cost=1))
+            out.append(dict(seed=int(seed) * 1000003 + i, cls=classes[i % 10], mp=False, nmax=24, cost=1))
     else:
         for i in range(2100):
-            out.append(dict(seed=int(seed) * 1000003 + i, cls=classes[i % 9], mp=True, nmax=24, cost=8))
+            out.append(dict(seed=int(seed) * 1000003 + i, cls=classes[i % 10], mp=True, nmax=24, cost=8))
         for i in range(2100, 30000):
-            out.append(dict(seed=int(seed) * 1000003 + i, cls=classes[i % 9], mp=False, nmax=24, cost=1))
+            out.append(dict(seed=int(seed) * 1000003 + i, cls=classes[i % 10], mp=False, nmax=24, cost=1))
     # ambient: the contract stays on compute_process_matrices while the real filters run (the F, G q^2 G^T they assemble)
     na = 12 if tier == 'quick' else 200
     out += [dict(seed=int(seed) * 1000003 + 800000 + i, cls='ambient', cost=30) for i in range(na)]
@@ -242,7 +289,21 @@ def run_case(case):
         Qc = Pi @ Qc @ Pi.T + Qi
         Pc = Pi @ Pc
     out.extend(PENDING)
-    bphi, bq = bounds(F, Q, dt)
+    # a propagation loop as user code writes it: ONE pair of arrays updated in place between calls, same step (the contract above
+    # judges every call against the values the arrays hold at that call; a memo that kept a reference to them returns the old answer)
+    PENDING.clear()
+    Fl, Ql = np.array(F, dtype=float), np.array(Q, dtype=float)
+    hl = float(parts[0]) if dt > 0 else 0.0
+    for it in range(3):
+        kalman.compute_process_matrices(Fl, Ql, hl)
+        obs['in_place_updates_between_calls'] = obs.get('in_place_updates_between_calls', 0) + 1
+        if it % 2 == 0:
+            Fl *= 0.5
+            Fl += 0.01 * np.eye(n)
+        else:
+            Ql *= 3.0
+    out.extend(dict(v, message='[same arrays updated in place between calls] ' + v['message']) for v in PENDING)
+    bphi, bq = bounds(np.asarray(F, float), np.asarray(Q, float), float(dt))
     obs['composition_checked'] = obs.get('composition_checked', 0) + 1
     k = len(parts)
     eP = np.abs(Pc - Phi).max()
@@ -255,6 +316,10 @@ def run_case(case):
     if bq > 0:
         obs['max_comp_q_ratio'] = max(obs.get('max_comp_q_ratio', 0), eQ / (k * bq))
     nontrivial = n > 2 and not (n == 15 and dt == 1.0)
+    if case['cls'] == 'integer':
+        obs['integer_typed_inputs'] = 1
+    dt = float(dt)
+    F, Q = np.asarray(F, float), np.asarray(Q, float)
     sample = dict(n=n, dt=dt, normFdt=float(np.linalg.norm(F, 2) * dt), rankQ=int(np.linalg.matrix_rank(Q)) if n else 0,
                   parts=len(parts), ratios={k_: v for k_, v in obs.items() if k_.startswith('max_')})
     return dict(violations=out, obs=obs, nontrivial=bool(nontrivial), sample=sample)
